@@ -23,6 +23,10 @@ inductive E where
   | re : E → E          -- `x.real` (as a complex number with zero imaginary part)
   | im : E → E          -- `x.imag`
   | abs : E → E         -- `abs(x)`
+  | exp : E → E
+  | log : E → E         -- natural logarithm
+  | sin : E → E
+  | cos : E → E
 deriving Repr, Inhabited
 
 structure NumOps (α : Type) where
@@ -41,6 +45,10 @@ structure NumOps (α : Type) where
   re : α → α
   im : α → α
   abs : α → α
+  exp : α → α
+  log : α → α
+  sin : α → α
+  cos : α → α
 
 def E.eval {α : Type} (o : NumOps α) (env : String → α) : E → α
   | .var s => env s
@@ -60,6 +68,10 @@ def E.eval {α : Type} (o : NumOps α) (env : String → α) : E → α
   | .re a => o.re (a.eval o env)
   | .im a => o.im (a.eval o env)
   | .abs a => o.abs (a.eval o env)
+  | .exp a => o.exp (a.eval o env)
+  | .log a => o.log (a.eval o env)
+  | .sin a => o.sin (a.eval o env)
+  | .cos a => o.cos (a.eval o env)
 
 /-! ## complex floats -/
 
@@ -94,10 +106,13 @@ def cosh (a : CF) : CF := ⟨Float.cosh a.re * Float.cos a.im, Float.sinh a.re *
 def tanh (a : CF) : CF :=
   -- for large |re| the quotient sinh/cosh overflows; tanh → ±1 there
   if a.re.abs > 20 then ⟨if a.re > 0 then 1 else -1, 0⟩ else mul (sinh a) (inv (cosh a))
+def sin (a : CF) : CF := ⟨Float.sin a.re * Float.cosh a.im, Float.cos a.re * Float.sinh a.im⟩
+def cos (a : CF) : CF := ⟨Float.cos a.re * Float.cosh a.im, -(Float.sin a.re * Float.sinh a.im)⟩
 def ops : NumOps CF :=
   { ofNat := fun n => ⟨n.toFloat, 0⟩, I := ⟨0, 1⟩, pi := ⟨3.141592653589793, 0⟩, add := add, mul := mul, neg := neg,
     inv := inv, pow := pow, sqrt := sqrt, tanh := tanh, cosh := cosh, sinh := sinh,
-    re := fun z => ⟨z.re, 0⟩, im := fun z => ⟨z.im, 0⟩, abs := fun z => ⟨abs z, 0⟩ }
+    re := fun z => ⟨z.re, 0⟩, im := fun z => ⟨z.im, 0⟩, abs := fun z => ⟨abs z, 0⟩,
+    exp := exp, log := log, sin := sin, cos := cos }
 end CF
 
 def E.evalF (env : String → CF) (e : E) : CF := e.eval CF.ops env
